@@ -227,6 +227,11 @@ func c20(c *Ctx) {
 		c.checkSkipBeforeOpen(reach, fetch)
 		c.R = saved
 		for _, o := range tmp.Obls {
+			if strings.HasSuffix(o.Key, "/declared-size-paths") {
+				// sizing a child whose size is recorded must not open it: an opened child is an out-of-order request
+				r.Check(o.Status == core.Discharged, "R20.2", strings.Replace(o.Key, "/declared-size-paths", "/sizing-opens-nothing-recorded", 1), o.Pos, "children with a recorded size are sized without being opened", "a child can be opened while sizes are computed (its block is requested before the children in front of it are read): "+o.Detail)
+				continue
+			}
 			if !strings.HasSuffix(o.Key, "/skip-before-open") {
 				continue
 			}
@@ -237,23 +242,7 @@ func c20(c *Ctx) {
 	// ---- R20.3
 	n3 := 0
 	// (a) recursive walks: reuse the walk-shape check of C06 on every function that loads in a links loop and recurses
-	for _, fn := range c.G.Funcs() {
-		rel, ok := c.P.PkgOf(fn)
-		if !ok || rel != "hamt" || fn.Synthetic != "" {
-			continue
-		}
-		selfRec, loads := false, false
-		for _, ci := range core.CallsIn(fn) {
-			if ci.Common().StaticCallee() == fn {
-				selfRec = true
-			}
-			if fetch[ci.Common().StaticCallee()] && core.InCycle(ci.Block()) {
-				loads = true
-			}
-		}
-		if !selfRec || !loads {
-			continue
-		}
+	for _, fn := range c.hamtWalkers(fetch) {
 		n3++
 		saved := c.R
 		tmp := core.NewReport("tmp", "")
@@ -267,6 +256,45 @@ func c20(c *Ctx) {
 			}
 		}
 		r.Check(len(bad) == 0, "R20.3", core.FuncName(fn)+"/depth-first-walk", c.P.Pos(fn.Pos()), "the loaded child is walked in the same iteration, before the links iterator advances", uniqJoin(bad))
+	}
+	// (a') no level-order collection: a child shard obtained from a loader inside a loop is not put aside into a slice, array
+	// or map in that loop (it must be descended into, or handed to a cursor, before the next link is looked at)
+	for _, fn := range c.G.Funcs() {
+		rel, ok := c.P.PkgOf(fn)
+		if !ok || rel != "hamt" || fn.Synthetic != "" || fetch[fn] {
+			continue
+		}
+		ord := 0
+		for _, ci := range core.CallsIn(fn) {
+			call, ok := ci.(*ssa.Call)
+			if !ok || !fetch[call.Call.StaticCallee()] || !core.InCycle(call.Block()) {
+				continue
+			}
+			child := extractOf(call, 0)
+			if child == nil {
+				continue
+			}
+			ord++
+			n3++
+			key := fmt.Sprintf("%s/child-not-collected#%d", core.FuncName(fn), ord)
+			badAt := ""
+			for _, ref := range *child.Referrers() {
+				switch x := ref.(type) {
+				case *ssa.Store:
+					if _, isIdx := x.Addr.(*ssa.IndexAddr); isIdx && x.Val == child {
+						badAt = c.P.Pos(x.Pos())
+						if badAt == "-" {
+							badAt = c.P.Pos(call.Pos())
+						}
+					}
+				case *ssa.MapUpdate:
+					if x.Value == child {
+						badAt = c.P.Pos(x.Pos())
+					}
+				}
+			}
+			r.Check(badAt == "", "R20.3", key, c.P.Pos(call.Pos()), "the loaded child is used in the iteration that loaded it", "loaded child shards are collected into a slice/map at "+badAt+" inside the loop that loads them: all children of a level are requested before any of them is descended into (level order, not depth first)")
+		}
 	}
 	// (b) list iterator: parent advance only when no child cursor is active
 	for _, fn := range c.G.Funcs() {
@@ -368,4 +396,45 @@ func (c *Ctx) linkFromForwardIterator(fn *ssa.Function, link ssa.Value) (bool, s
 		return true, "parameter fed by forward-iterator elements at every call site"
 	}
 	return false, fmt.Sprintf("%T", link)
+}
+
+// hamtWalkers: the functions of package hamt that load child shards inside a links loop and recurse (directly, or through
+// a per-link helper from which both a loader and the function itself are reachable).
+func (c *Ctx) hamtWalkers(fetch map[*ssa.Function]bool) []*ssa.Function {
+	var out []*ssa.Function
+	for _, fn := range c.G.Funcs() {
+		rel, ok := c.P.PkgOf(fn)
+		if !ok || rel != "hamt" || fn.Synthetic != "" {
+			continue
+		}
+		selfRec, loads := false, false
+		for _, ci := range core.CallsIn(fn) {
+			if ci.Common().StaticCallee() == fn {
+				selfRec = true
+			}
+			if fetch[ci.Common().StaticCallee()] && core.InCycle(ci.Block()) {
+				loads = true
+			}
+			// the per-link step delegated to a helper: a call inside the loop to a non-loader repository function from which
+			// both a loader and fn itself are reachable
+			if h := ci.Common().StaticCallee(); h != nil && h != fn && !fetch[h] && core.InCycle(ci.Block()) && len(fn.Params) > 0 && fn.Signature.Recv() != nil {
+				if hrel, isRepo := c.P.PkgOf(h); isRepo && hrel == "hamt" && core.RecvNamed(h) == core.RecvNamed(fn) {
+					hr, _ := c.G.Reach(h)
+					rl := false
+					for f := range fetch {
+						if hr[f] {
+							rl = true
+						}
+					}
+					if rl && hr[fn] {
+						selfRec, loads = true, true
+					}
+				}
+			}
+		}
+		if selfRec && loads {
+			out = append(out, fn)
+		}
+	}
+	return out
 }
